@@ -30,9 +30,9 @@ ClusterID == 88
 P(lp, asp, med, ebgp, id, oid, clv, src, nh, comm, otc) ==
     [type |-> "bgp", lp |-> lp, aslen |-> Len(asp), origin |-> 0, med |-> med, ebgp |-> ebgp, id |-> id, oid |-> oid,
      cl |-> IF clv = <<>> THEN -1 ELSE Len(clv), src |-> src, nh |-> nh,
-     asp |-> asp, clv |-> clv, comm |-> comm, otc |-> otc, pid |-> 0, redist |-> FALSE]
+     asp |-> asp, clv |-> clv, comm |-> comm, otc |-> otc, pid |-> 0, redist |-> FALSE, aggr |-> FALSE]
 S(nh) == [type |-> "static", lp |-> 0, aslen |-> 0, origin |-> 0, med |-> 0, ebgp |-> FALSE, id |-> 0, oid |-> 0, cl |-> -1,
-          src |-> 0, nh |-> nh, asp |-> <<>>, clv |-> <<>>, comm |-> {}, otc |-> 0, pid |-> 0, redist |-> FALSE]
+          src |-> 0, nh |-> nh, asp |-> <<>>, clv |-> <<>>, comm |-> {}, otc |-> 0, pid |-> 0, redist |-> FALSE, aggr |-> FALSE]
 
 PD == [ e1 |-> P(100, <<65001, 65002>>, 0, TRUE, 11, 0, <<>>, 1, 1, {}, 0),          \* eBGP-learned
         e2 |-> P(100, <<65003>>, 0, TRUE, 12, 0, <<>>, 2, 2, {}, 0),                 \* eBGP-learned, shorter AS_PATH
@@ -56,6 +56,7 @@ PD == [ e1 |-> P(100, <<65001, 65002>>, 0, TRUE, 11, 0, <<>>, 1, 1, {}, 0),     
         dMed  |-> P(100, <<65020>>, 3, TRUE, 30, 0, <<>>, 21, 21, {}, 0),
         dAsp  |-> P(100, <<65021>>, 0, TRUE, 30, 0, <<>>, 21, 21, {}, 0),
         dComm |-> P(100, <<65020>>, 0, TRUE, 30, 0, <<>>, 21, 21, {"c1"}, 0),
+        dAggr |-> [P(100, <<65020>>, 0, TRUE, 30, 0, <<>>, 21, 21, {}, 0) EXCEPT !.aggr = TRUE],   \* carries an AGGREGATOR
         dOid  |-> P(100, <<65020>>, 0, FALSE, 30, 6, <<7>>, 21, 21, {}, 0),
         dOid2 |-> P(100, <<65020>>, 0, FALSE, 30, 8, <<7>>, 21, 21, {}, 0),
         dCl   |-> P(100, <<65020>>, 0, FALSE, 30, 6, <<7, 8>>, 21, 21, {}, 0) ]                                                               \* static route (redistributed)
@@ -114,7 +115,7 @@ ExportRules(p0) == ExportRulesS(T, PeerIP, p0)
 
 (* the fields a peer can observe *)
 Wire(p) == [asp |-> p.asp, nh |-> p.nh, lp |-> p.lp, med |-> p.med, oid |-> p.oid, clv |-> p.clv, comm |-> p.comm,
-            otc |-> p.otc, ebgpLearned |-> p.ebgp, redist |-> p.redist,
+            otc |-> p.otc, ebgpLearned |-> p.ebgp, redist |-> p.redist, aggr |-> p.aggr,
             id |-> p.id, src |-> p.src]     \* identity of the originating path (two paths may look alike on the wire)
 
 Export(po, x, n) ==
